@@ -515,7 +515,7 @@ void harness(void)
 }
 ''', extra={'kind': 'bounded', 'bound': 'source range of at most 3 elements (outer push_back loop unwound 4 times with unwinding assertion; the loops of '
                                           'changeBuffer / array_destructor inside keep their loop contracts, blocks are of symbolic size)',
-               'cbmc_flags': ['--unwindset', 'vector_ctor_iter.0:4']})
+               'unwindset': ['vector_ctor_iter.0:4']})
 
 
 # ============================================================================================== units rewritten for the repaired code
@@ -701,7 +701,7 @@ void harness(void)
 }
 ''', extra=dict(SPLIT, kind='bounded', bound='source range of at most 1 element (the loop over insert(pos, value) unwound twice with unwinding assertion; '
                                                   'blocks are of symbolic size, the loops of changeBuffer / array_destructor keep their loop contracts)',
-               cbmc_flags=['--unwindset', 'vector_insert_range.0:2'], params={'REALLOC': [0], 'MAXM': [1]}, params_thorough={'REALLOC': [0], 'MAXM': [1]}),
+               unwindset=['vector_insert_range.0:2'], params={'REALLOC': [0], 'MAXM': [1]}, params_thorough={'REALLOC': [0], 'MAXM': [1]}),
      assumptions=['insert_range: only the case size()+n <= capacity() is run (with a reallocation the unwound formula exceeds 8 GB); reserve() with reallocation is proved by unit reserve, insert(pos, value) after a reallocation by insert_value in the thorough tier'], need_j=True)
 # ---------------------------------------------------------------------------------------------- insert(pos, first, last), two elements (thorough tier)
 unit('insert_range2',
@@ -741,5 +741,5 @@ void harness(void)
 }
 ''', extra=dict(SPLIT, kind='bounded', bound='source range of at most 2 elements (the loop over insert(pos, value) unwound 3 times with unwinding assertion; '
                                                   'blocks are of symbolic size, the loops of changeBuffer / array_destructor keep their loop contracts)',
-               cbmc_flags=['--unwindset', 'vector_insert_range.0:3'], tier='thorough', params={'REALLOC': [0], 'MAXM': [2]}, params_thorough={'REALLOC': [0], 'MAXM': [2]}),
+               unwindset=['vector_insert_range.0:3'], tier='thorough', params={'REALLOC': [0], 'MAXM': [2]}, params_thorough={'REALLOC': [0], 'MAXM': [2]}),
      assumptions=['insert_range: only the case size()+n <= capacity() is run (with a reallocation the unwound formula exceeds 8 GB); reserve() with reallocation is proved by unit reserve, insert(pos, value) after a reallocation by insert_value in the thorough tier'], need_j=True)
